@@ -83,10 +83,35 @@ func candidatesIn(p *Program, fn *ssa.Function, core *ssa.Function) (ssa.Value, 
 				if len(matchTests(fn, v)) > 0 {
 					return v, c
 				}
+				if hc, _, _ := matchHelper(p, fn, v); hc != nil {
+					return v, c
+				}
 			}
 		}
 	}
 	return nil, nil
+}
+
+// matchHelper: the candidates C of fn are handed to a package function that
+// contains the match tests (the matching loop extracted into a helper).
+// Returns the call, the helper and the helper's parameter that receives C.
+func matchHelper(p *Program, fn *ssa.Function, C ssa.Value) (*ssa.Call, *ssa.Function, ssa.Value) {
+	for _, sc := range callsIn(p, fn) {
+		h := sc.call.Common().StaticCallee()
+		if h == nil || !p.owns(h) || h.Blocks == nil || h == fn {
+			continue
+		}
+		args := sc.call.Common().Args
+		for i, a := range args {
+			if a != C || i >= len(h.Params) {
+				continue
+			}
+			if len(matchTests(h, h.Params[i])) > 0 {
+				return sc.call, h, h.Params[i]
+			}
+		}
+	}
+	return nil, nil, nil
 }
 
 func findCore(p *Program, verify *ssa.Function) *ssa.Function {
@@ -400,6 +425,20 @@ func checkMatchGuard(p *Program, r *Report, fn *ssa.Function, core *ssa.Function
 		return
 	}
 	growth := growthSites(M)
+	if hc, h, hC := matchHelper(p, fn, C); hc != nil && len(tests) == 0 {
+		// the matching loop lives in a helper: the counter is what the helper returns
+		if M != ssa.Value(hc) {
+			r.Violate("R03b", name+"/match", posOf(p, hc), "the candidates are matched in "+p.FuncName(h)+" but the count test does not use what it returns", "in "+name)
+			return
+		}
+		tests = matchTests(h, hC)
+		growth = nil
+		for _, ret := range returnsOf(h) {
+			if ops := retOperands(ret); len(ops) > 0 {
+				growth = append(growth, growthSites(ops[0])...)
+			}
+		}
+	}
 	if len(growth) == 0 {
 		r.Undecided("R03b", name+"/match", posOf(p, countIf), "the match counter is never increased")
 		return
